@@ -188,7 +188,7 @@ CHECKS_EXTRA = {
     "C20": ("stateless schedule exploration with iterative preemption bounding: real threads running real utype calls under a "
             "controlled scheduler (sys.settrace line events of the instrumented shared-state functions, one baton), every "
             "schedule within the bound executed on fresh state",
-            "13 scenarios (first parse of classes with pending forward references, module level and function-local, from one "
+            "15 scenarios (first parse of classes with pending forward references, module level and function-local, from one "
             "end and from both ends of a mutual recursion; first calls of a decorated function with forward-referenced "
             "parameter / return types; concurrent decoration of one function; conversions racing a registration in the "
             "process-wide converter registry) x every interleaving of 2 threads with <= 1 preemption (quick) / of 2 threads "
